@@ -246,31 +246,37 @@ def MemTopics.new : MemTopics := ⟨SNode.empty, RNode.empty⟩
 
 def validQos (q : Nat) : Bool := q == 0 || q == 1 || q == 2
 
-/-- `checkSys(topic) != nil`: the topic begins with '$' (`len(topic) > 0 && topic[0] == '$'`).
-Every entry point of `MemTopics` rejects such a topic before the trie is touched. -/
+/-- the second test of `checkTopic`: the topic begins with '$' (`topic[0] == '$'`) -/
 def checkSys (topic : List UInt8) : Bool := topic.head? == some cSYS
+
+/-- `checkTopic(topic) != nil`: the topic is empty (`len(topic) == 0`; topic names
+and filters have at least one character, MQTT-4.7.3-1) or begins with '$'.
+Every entry point of `MemTopics` rejects such a topic before the trie is touched
+(without this test the empty topic would address the root node: `sinsert` & co.
+treat `len(topic) == 0` as "end of the walk"). -/
+def checkTopic (topic : List UInt8) : Bool := topic.isEmpty || checkSys topic
 
 /-- `Subscribe(topic, qos, sub)`; returns the granted QoS or failure. -/
 def MemTopics.subscribe (mt : MemTopics) (maxQos : Nat) (topic : List UInt8) (qos sub : Nat) :
     MemTopics × Option Nat :=
   if !validQos qos then (mt, none) else
   let qos := if qos > maxQos then maxQos else qos
-  if checkSys topic then (mt, none) else
+  if checkTopic topic then (mt, none) else
   let (r, ok) := mt.sroot.sinsert topic qos sub
   ({ mt with sroot := r }, if ok then some qos else none)
 
 def MemTopics.unsubscribe (mt : MemTopics) (topic : List UInt8) (sub : Option Nat) : MemTopics × Bool :=
-  if checkSys topic then (mt, false) else
+  if checkTopic topic then (mt, false) else
   let (r, ok) := mt.sroot.sremove topic sub
   ({ mt with sroot := r }, ok)
 
 def MemTopics.subscribers (mt : MemTopics) (topic : List UInt8) (qos : Nat) : Option (List (Nat × Nat)) :=
   if !validQos qos then none else
-  if checkSys topic then none else mt.sroot.smatch topic qos
+  if checkTopic topic then none else mt.sroot.smatch topic qos
 
 /-- `Retain(msg)`: an empty payload removes. -/
 def MemTopics.retain (mt : MemTopics) (m : RMsg) : MemTopics × Bool :=
-  if checkSys m.topic then (mt, false) else
+  if checkTopic m.topic then (mt, false) else
   if m.payload.isEmpty then
     let (r, ok) := mt.rroot.rremove m.topic
     ({ mt with rroot := r }, ok)
@@ -279,6 +285,6 @@ def MemTopics.retain (mt : MemTopics) (m : RMsg) : MemTopics × Bool :=
     ({ mt with rroot := r }, ok)
 
 def MemTopics.retained (mt : MemTopics) (topic : List UInt8) : Option (List RMsg) :=
-  if checkSys topic then none else mt.rroot.rmatch topic
+  if checkTopic topic then none else mt.rroot.rmatch topic
 
 end Mqtt.Model.Topics
